@@ -136,7 +136,7 @@ def failing_sql(arity, names):
     return "select cast(x as int) as %s, y as %s from (values ('1', 'p'), ('boom', 'q')) v(x, y)" % (names[0], names[1])
 
 
-def gen_history(rng, ci, cols_i, rows_i, nsess, length):
+def gen_history(rng, ci, cols_i, rows_i, nsess, length, allow_fail=True):
     """-> list of dict(u, sql, sx, kind, probe_of, ...)"""
     H = []
 
@@ -187,7 +187,7 @@ def gen_history(rng, ci, cols_i, rows_i, nsess, length):
             ref = rand_ref(rng)
             arity = rng.choice([1, 1, 2])
             lay = LAYOUTS[arity][0]
-            if rng.chance(12):
+            if allow_fail and rng.chance(12):
                 add(u, "insert into %s %s" % (ref_sql(ref), failing_sql(arity, [n for n, _ in lay])),
                     "(ins %s (rows (%s) (%s) 1))" % (ref_sx(ref), " ".join(str(cols_i.id(c)) for c in lay), str(rows_i.id(("I1",) if arity == 1 else ("I1", "Sp")))),
                     "ins", fails=True, target=ref)
@@ -213,7 +213,7 @@ def gen_history(rng, ci, cols_i, rows_i, nsess, length):
             if m < 2:
                 src = rand_ref(rng)
                 add(u, head + "select * from " + ref_sql(src), "(ctas %s %s (ref %s))" % (ref_sx(ref), oc, ref_sx(src)), "ctasref")
-            elif m < 4 and oc != "i":
+            elif m < 4 and oc != "i" and allow_fail:
                 arity = rng.choice([1, 2])
                 lay = LAYOUTS[arity][0]
                 add(u, head + failing_sql(arity, [n for n, _ in lay]),
@@ -342,7 +342,10 @@ def stage_histories(ctx, rng, gcat, gmodel):
         cols_i, rows_i = Intern(), Intern()
         nsess = rng.choice([1, 2, 2, 3])
         parts = rng.choice([1, 2, 3, 4, 8])
-        H = gen_history(rng, i, cols_i, rows_i, nsess, 14 + rng.below(22))
+        # statements that fail during execution only under the deterministic scheduler, which runs the failed
+        # query's remaining tasks to completion before the next statement; on the threaded executor they keep running
+        # concurrently with the session's next statements (what they leave behind appears at an arbitrary later time)
+        H = gen_history(rng, i, cols_i, rows_i, nsess, 14 + rng.below(22), allow_fail=(i % 3 != 2))
         if i % 3 == 2:
             case = {"id": "h%d" % i, "mode": "threaded", "threads": rng.choice([1, 2, 4]), "sessions": nsess, "timeout_s": 120}
             # default partitions of the threaded executor = its thread count
@@ -406,11 +409,13 @@ def stage_histories(ctx, rng, gcat, gmodel):
                                 ok = False
                         if ok and rest and all(x in before[2] for x in rest):
                             used_extra = rest
-                            oracle = "(o (none) (extra %s))" % " ".join(str(x) for x in rest)
+                if used_extra is not None:
+                    viol.append({"kind": "INSERT .. SELECT from its own target inserted more than the snapshot "
+                                         "(the defect repaired by 2e9960218 is back: theorem C14_insert_select_snapshot no longer describes the code)",
+                                 "config": cfgd, "session": h["u"], "statement": h["sql"], "rows_inserted": eng[1],
+                                 "table_rows_before": eng[1] - len(used_extra), "history": case["stmts"][:i + 2]})
+                    break
                 flags, mod = canon_model(model.ask("(stmt %d %s %s)" % (h["u"], oracle, h["sx"])))
-                if used_extra is not None and flags["self"] and eng == mod:
-                    known.setdefault("self-insert-reads-own-appends", []).append(
-                        {"config": cfgd, "history": case["stmts"][:i + 2], "rows_inserted": eng[1], "table_rows_before": eng[1] - len(used_extra)})
                 nst += 1
                 if h["kind"] in ("sel", "lt", "lv", "ls", "show"):
                     nprobe += 1
@@ -450,81 +455,76 @@ def stage_replay(ctx, rng, gcat, gmodel, consts):
     if not segsz or not cap:
         return {"violations": [{"kind": "segment size / chunk capacity not found in the source", "constants": consts}], "known": {}, "n": 0, "samples": []}
     seg_rows = segsz * cap
-    # fewer full segments than partitions: every schedule terminates (see the divergence case below)
-    combos = [(200000, 8), (3 * seg_rows + 1000, 8), (seg_rows - 1, 2), (2 * seg_rows, 3)]
+    # (rows in the table, partitions, batch_size of the inserting statement).  Before 2e9960218 the first group
+    # inserted more than the snapshot under the ascending partition order and the second group never terminated.
+    combos = [(200000, 8, cap), (3 * seg_rows + 1000, 8, cap), (seg_rows - 1, 2, cap), (2 * seg_rows, 3, cap), (5000, 4, 100),
+              (3 * seg_rows + 1000, 4, cap), (seg_rows, 1, cap)]
     if tier != "quick":
-        combos += [(rng.below(5 * seg_rows) + 1, rng.choice([6, 8, 16])) for _ in range(12)]
+        combos += [(rng.below(5 * seg_rows) + 1, rng.choice([1, 2, 3, 5, 8, 16]), rng.choice([cap, cap, 512, 100])) for _ in range(16)]
     cases, meta = [], []
-    for nrows, p in combos:
+    for nrows, p, bs in combos:
         pols = [("fifo", list(range(p - 1, -1, -1))), ("lifo", list(range(p)))]
-        if (nrows, p) == combos[0] or tier != "quick":
+        if (nrows, p, bs) == combos[0] or tier != "quick":
             pols += [("starve_last", list(range(p - 1, -1, -1))), ("starve_first", list(range(p)))]
+        if p == 1:
+            pols = pols[:1]
         for pol, order in pols:
             # pipeline.rs `create_partition_pipelines` pops the partition states: task i of the pipeline owns scan
             # state p-1-i; a task runs until it parks, i.e. one partition runs to completion at a time
             stmts = [[0, "set partitions to 1"],
                      [0, "create temp table t as select a from generate_series(1, %d) g(a)" % nrows],
-                     [0, "set partitions to %d" % p], [0, "insert into t select a from t"],
+                     [0, "set partitions to %d" % p], [0, "set batch_size to %d" % bs], [0, "insert into t select a from t"],
                      [0, "select count(*), count(distinct a) from t"]]
-            cases.append({"id": "si-%d-%d-%s" % (nrows, p, pol), "mode": "det", "partitions": 1, "sessions": 1, "timeout_s": 300,
+            cases.append({"id": "si-%d-%d-%d-%s" % (nrows, p, bs, pol), "mode": "det", "partitions": 1, "sessions": 1, "timeout_s": 25,
                           "sched": {"kind": pol, "seed": 1}, "stmts": stmts, "brief": True})
-            meta.append((nrows, p, pol, order))
+            meta.append((nrows, p, bs, pol, order))
     real = common.run_harness(gcat, [], cases, timeout=1500)
-    lines = ["(selfinsert %d %d %d %d (%s))" % (segsz, cap, nrows, p, " ".join(str(x) for x in order)) for nrows, p, pol, order in meta]
+    lines = ["(selfinsert %d %d %d %d %d (%s))" % (segsz, cap, bs, nrows, p, " ".join(str(x) for x in order)) for nrows, p, bs, pol, order in meta]
     mout = run_model_big(gmodel, "storage", lines)
     samples = []
-    for case, (nrows, p, pol, order), r, m in zip(cases, meta, real, mout):
+    for case, (nrows, p, bs, pol, order), r, m in zip(cases, meta, real, mout):
         n += 1
         res = r.get("results") or []
+        stm = [x[1] for x in case["stmts"]]
+        sched = {"scheduler": "deterministic, policy %s" % pol, "partition_order": order, "partitions": p, "batch_size": bs}
         mm = re.match(r"total (\d+) count (\d+) complete true", m)
-        if len(res) < 5 or not res[3].get("ok") or not res[4].get("ok") or not mm:
-            viol.append({"kind": "self-insert replay did not run", "case": case["id"], "model": m, "engine": [x.get("err", x.get("hang", x.get("panic"))) for x in res], "stmts": [s[1] for s in case["stmts"]]})
+        if not mm or (int(mm.group(1)), int(mm.group(2))) != (2 * nrows, nrows):
+            viol.append({"kind": "the Storage model (table scan with segment limit) does not predict the snapshot", "case": case["id"], "model": m})
             continue
-        ins = int(res[3]["rows"][0][0][1:])
-        total, dist = int(res[4]["rows"][0][0][1:]), int(res[4]["rows"][0][1][1:])
-        if (total, ins) != (int(mm.group(1)), int(mm.group(2))):
-            viol.append({"kind": "engine and storage model disagree on a self-reading INSERT", "case": case["id"], "policy": pol, "partitions": p,
-                         "table_rows": nrows, "engine_inserted": ins, "engine_total": total, "model": m, "stmts": [s[1] for s in case["stmts"]]})
+        if len(res) < 6 or not res[4].get("ok") or not res[5].get("ok"):
+            def old_model():
+                return run_model_big(gmodel, "storage", ["(selfinsert_old %d %d %d %d %d (%s) 600)" % (segsz, cap, bs, nrows, p, " ".join(str(x) for x in order))])[0]
+            what = "self-reading INSERT did not terminate within 25 s" if "timeout" in r or len(res) < 5 else "self-insert replay did not run"
+            viol.append({"kind": what, "case": case["id"], "schedule": sched, "stmts": stm, "engine": str(r)[:300],
+                         "model_now": m, "model_before_2e9960218": old_model()})
             continue
-        if ins != nrows or total != 2 * nrows or dist != nrows:
-            if nrows > (segsz - 1) * cap and p >= 2 and ins > nrows and dist == nrows:
-                known.setdefault("self-insert-reads-own-appends", []).append(
-                    {"stmts": [s[1] for s in case["stmts"]], "scheduler": pol, "rows_inserted": ins, "table_rows_before": nrows})
-            else:
-                viol.append({"kind": "INSERT .. SELECT from its own target did not insert a snapshot, outside the known class", "case": case["id"],
-                             "policy": pol, "partitions": p, "table_rows": nrows, "inserted": ins, "total": total, "distinct": dist,
-                             "stmts": [s[1] for s in case["stmts"]]})
+        ins = int(res[4]["rows"][0][0][1:])
+        total, dist = int(res[5]["rows"][0][0][1:]), int(res[5]["rows"][0][1][1:])
+        if (ins, total, dist) != (nrows, 2 * nrows, nrows):
+            old = run_model_big(gmodel, "storage", ["(selfinsert_old %d %d %d %d %d (%s) 600)" % (segsz, cap, bs, nrows, p, " ".join(str(x) for x in order))])[0]
+            viol.append({"kind": "INSERT .. SELECT from its own target did not insert the snapshot under this schedule"
+                                 + (" (equals the prediction of the model before 2e9960218: the repaired defect is back)" if old.startswith("total %d count %d " % (total, ins)) else ""),
+                         "case": case["id"], "schedule": sched, "table_rows": nrows, "rows_inserted": ins, "total": total, "distinct": dist,
+                         "model_now": m, "model_before_2e9960218": old, "stmts": stm})
         if len(samples) < 2:
             samples.append({"case": case["id"], "engine_rows_inserted": ins, "model": m})
-    # divergence: with at least as many full segments as partitions every fetched index exists again, the statement
-    # feeds on its own output for ever (model: the partition is still unfinished after 600 scan calls)
-    dcase = {"id": "si-diverge", "mode": "det", "partitions": 1, "sessions": 1, "timeout_s": 6, "sched": {"kind": "fifo", "seed": 1}, "brief": True,
-             "stmts": [[0, "create temp table t as select a from generate_series(1, %d) g(a)" % seg_rows], [0, "insert into t select a from t"]]}
-    dres = common.run_harness(gcat, [], [dcase], timeout=60)[0]
-    dm = run_model_big(gmodel, "storage", ["(selfinsert %d %d %d 1 (0) 600)" % (segsz, cap, seg_rows)])[0]
-    n += 1
-    finished = len(dres.get("results") or []) == 2 and "ok" in (dres["results"][1])
-    if dm.startswith("unfinished") and not finished:
-        known.setdefault("self-insert-never-terminates", []).append({"stmts": [s[1] for s in dcase["stmts"]], "partitions": 1,
-                                                                      "engine": "no result within 6 s (watchdog)", "model": dm})
-    elif dm.startswith("unfinished") != (not finished):
-        viol.append({"kind": "engine and storage model disagree on the termination of a self-reading INSERT", "engine": str(dres)[:300], "model": dm,
-                     "stmts": [s[1] for s in dcase["stmts"]]})
-    # threaded executor: the same statement, whatever the OS schedule: inserted rows >= snapshot, distinct = snapshot
-    tcases = [{"id": "sit-%d" % t, "mode": "threaded", "threads": t, "sessions": 1, "timeout_s": 300, "brief": True,
-               "stmts": [[0, "set partitions to 1"], [0, "create temp table t as select a from generate_series(1, 200000) g(a)"],
-                         [0, "set partitions to 8"], [0, "insert into t select a from t"], [0, "select count(*), count(distinct a) from t"]]} for t in (1, 4)]
+    # threaded executor: the same statement, whatever the OS schedule
+    tcases = [{"id": "sit-%d-%d" % (t, nr), "mode": "threaded", "threads": t, "sessions": 1, "timeout_s": 60, "brief": True,
+               "stmts": [[0, "set partitions to 1"], [0, "create temp table t as select a from generate_series(1, %d) g(a)" % nr],
+                         [0, "set partitions to %d" % pp], [0, "insert into t select a from t"], [0, "select count(*), count(distinct a) from t"]]}
+              for t, nr, pp in ((1, 200000, 8), (4, 200000, 8), (4, 300000, 4))]
     for case, r in zip(tcases, common.run_harness(gcat, [], tcases, timeout=900)):
         n += 1
         res = r.get("results") or []
+        stm = [x[1] for x in case["stmts"]]
+        nr = int(re.search(r"generate_series\(1, (\d+)\)", stm[1]).group(1))
         if len(res) < 5 or not res[3].get("ok") or not res[4].get("ok"):
-            viol.append({"kind": "self-insert (threaded) did not run", "case": case["id"], "engine": [x.get("err", x.get("hang", x.get("panic"))) for x in res]})
+            viol.append({"kind": "self-reading INSERT (threaded executor) did not finish", "case": case["id"], "threads": case["threads"], "stmts": stm, "engine": str(r)[:300]})
             continue
         ins, total, dist = int(res[3]["rows"][0][0][1:]), int(res[4]["rows"][0][0][1:]), int(res[4]["rows"][0][1][1:])
-        if total != 200000 + ins or dist != 200000 or ins < 200000:
-            viol.append({"kind": "self-insert (threaded): count and contents disagree", "case": case["id"], "inserted": ins, "total": total, "distinct": dist})
-        elif ins != 200000:
-            known.setdefault("self-insert-reads-own-appends", []).append({"stmts": [s[1] for s in case["stmts"]], "threads": case["threads"], "rows_inserted": ins})
+        if (ins, total, dist) != (nr, 2 * nr, nr):
+            viol.append({"kind": "INSERT .. SELECT from its own target did not insert the snapshot (threaded executor)", "case": case["id"],
+                         "threads": case["threads"], "rows_inserted": ins, "total": total, "distinct": dist, "stmts": stm})
     # failing INSERT / CTAS after k full batches
     fcases, fmeta = [], []
     for boom, what in [(90000, "ins"), (90000, "ctas"), (1000, "ins"), (1000, "ctas"), (seg_rows + 5, "ins"), (seg_rows - 5, "ins")]:
@@ -639,7 +639,8 @@ def run(ctx):
         "rule": "K: every statement of every generated history (1..3 sessions of one engine, partitions 1..8, deterministic scheduler with 5 policies or the "
                 "threaded executor) = one evaluation: outcome class and result (row bag, column names/types, object lists, setting value) equal to the extracted "
                 "Catalog.step_impl; distinct = distinct (statement kind, model outcome). R: each replay case = one evaluation: row counts of the engine under a "
-                "named schedule equal to the extracted Storage model run at the source's constants",
+                "named schedule equal to the extracted Storage model (table scan with the captured segment limit) run at the source's constants; "
+                "a deviation is reported with the schedule and with the prediction of Storage.Old.self_insert",
         "samples": hs["samples"][:2] + rp["samples"][:2],
         "histories": hs["cases"], "history_statements": hs["statements"], "history_probes": hs["probes"], "replay_cases": rp["n"],
         "source_constants": consts, "exhaustive": False,
